@@ -60,7 +60,8 @@ def run_scenario(sc):
             V = {1: ex.Beta('b1', 0.1, None, None, 0), 2: ex.Numeric(0.2), 3: ex.Beta('b3', 0.3, None, None, 0)}
             if sc['kind'] == 'nested':
                 # the validity of a nest structure does not depend on how the nests are named
-                names = {'unnamed': [None, None], 'same-name': ['n', 'n'], 'clash-with-default': ['nest_2', None]}[naming]
+                k_ = len(sc['nests'])
+                names = {'unnamed': [None] * k_, 'same-name': ['n'] * k_, 'clash-with-default': ['nest_2'] + [None] * (k_ - 1)}[naming]
                 nests = NestsForNestedLogit(choice_set=[1, 2, 3], tuple_of_nests=tuple(
                     OneNestForNestedLogit(nest_param=1.5, list_of_alternatives=sorted(n), name=names[j]) for j, n in enumerate(sc['nests'])))
                 e = models.lognested(V, None, nests, 1)
@@ -170,13 +171,17 @@ def body(chk: check.Check):
     recs = []
     for panel in (False, True):
         for est in (True, False):
-            plans = [(1, (3,) if quick else (1,)), (2, (16, 24) if quick else (6, 9))]
+            plans = [(1, (3,) if quick else (1,), False), (2, (24, 36) if quick else (6, 9), False)]
             if not quick:
-                plans.append((3, (12, 16, 20)))
-            for max_ops, thin in plans:
-                res = tlc.run('AuditGen', audit.cfg(panel, max_ops, salt, est), extra_modules={'AuditGen': audit.module(panel, thin)},
+                plans.append((3, (12, 16, 20), False))
+            # chains: a logit with unmatched keys below two wrappers (three operators deep), every wrapper class
+            plans.append((3, (6, 11, 11) if quick else (3, 5, 5), True))
+            for max_ops, thin, chain in plans:
+                res = tlc.run('AuditGen', audit.cfg(panel, max_ops, salt, est, chain), extra_modules={'AuditGen': audit.module(panel, thin)},
                               workers='auto', timeout=2400)
-                chk.add_tlc(f'Audit: panel={panel} estimation={est} ops<={max_ops} thin={thin}', res)
+                chk.add_tlc(f'Audit: panel={panel} estimation={est} ops<={max_ops} thin={thin}' + (' chains' if chain else ''), res)
+                for n_, r_ in enumerate(res.emitted):
+                    r_['light'] = quick and n_ % 4 != 0
                 recs += res.emitted
     chk.rule = ('formula DAGs generated by TLC from Audit.tla (fault leaves: unknown column, parameter named like a column, draw, '
                 'integration variable; binders; every operator class; both data kinds; both entry points) with the expected verdict; '
